@@ -167,4 +167,34 @@ theorem gen_pickle_observe (w w' : W) (hi : Inv w) (h : Model.WfmReduce.pickleVi
   have := pickle_observe w w' hi (by simpa using h)
   exact ⟨this.1, this.2.1, this.2.2.1⟩
 
+open Model.WfmReduce in
+/-- **"Two objects with the same observable state compare equal whatever their start_index / capacity", over the members the
+    source's `__eq__` compares**: none of them is the buffer, the start index or the capacity. -/
+theorem gen_eq_ignores_slack (a b : W) (h : a.obs = b.obs) : eqVia a b = some true := by
+  obtain ⟨ka, da, na, bufa, sa, ca, ra, ta, sca, pa, cha⟩ := a
+  obtain ⟨kb, db, nb, bufb, sb, cb, rb, tb, scb, pb, chb⟩ := b
+  simp only [W.obs, Obs.mk.injEq, W.view] at h
+  obtain ⟨hk, hd, hn, hv, ht, hs, hp⟩ := h
+  subst hk hd hn ht hs hp
+  cases ka <;>
+    simp [eqVia, clsOf, memberEq, Gen.WfmReduce.eq_members, List.lookup, List.mapM_cons, List.mapM_nil, W.view, hv]
+
+open Model.WfmReduce in
+/-- and equality is not weaker than the observable state of the class: dtype, the visible window and the properties always,
+    the timing of the waveform classes, the scale mode of the numeric ones -/
+theorem gen_eq_sound (a b : W) (hk : a.kind = b.kind) (h : eqVia a b = some true) :
+    a.dtype = b.dtype ∧ a.view = b.view ∧ a.props = b.props ∧ (a.kind ≠ .spectrum → a.timing = b.timing)
+      ∧ (a.kind = .analog ∨ a.kind = .complex → a.scale = b.scale) := by
+  obtain ⟨ka, da, na, bufa, sa, ca, ra, ta, sca, pa, cha⟩ := a
+  obtain ⟨kb, db, nb, bufb, sb, cb, rb, tb, scb, pb, chb⟩ := b
+  simp only at hk
+  subst hk
+  cases ka <;>
+    simp [eqVia, clsOf, memberEq, Gen.WfmReduce.eq_members, List.lookup, List.mapM_cons, List.mapM_nil] at h ⊢ <;>
+    first
+      | exact h
+      | exact ⟨h.1, h.2.1, h.2.2.1, h.2.2.2.1, h.2.2.2.2⟩
+      | exact ⟨h.1, h.2.1, h.2.2.1, h.2.2.2⟩
+      | exact ⟨h.1, h.2.1, h.2.2⟩
+
 end Props.C13
